@@ -552,3 +552,58 @@ def summarize(counters, extra, tier):
 
 _d = {'shape': [2, 2], 'data': [], 'rows': [{}, {}], 'columns': [{}, {}]}
 RULE = RULE % (len(json_ops(_d)), len(h5_ops(2, 2, 1)))
+
+
+def stress(ctx):
+    """Scale: files with more than 65536 stored values; corruption at the
+    start, middle and end of the index arrays / the data list."""
+    biom = ctx.biom
+    n = 300
+    rng = np.random.default_rng(ctx.rng('stress').randrange(2 ** 32))
+    D = rng.integers(1, 9, size=(n, n)).astype(float)
+    t = biom.Table(D, ['o%d' % i for i in range(n)],
+                   ['s%d' % j for j in range(n)], type='OTU table')
+    hp, mp, jp = ctx.path('c15s.biom'), ctx.path('c15s.mut'), \
+        ctx.path('c15s.json')
+    try:
+        with h5py.File(hp, 'w') as f:
+            t.to_hdf5(f, 'scale')
+        v, detail = validate(ctx, hp)
+        if v != 'valid':
+            raise Violation('C15/writer-output-rejected/hdf5', 'scale: %s' %
+                            detail)
+        for axis in ('observation', 'sample'):
+            for pos in (0, n * n // 2, n * n - 1):
+                for bad in (n, -1):
+                    shutil.copy(hp, mp)
+                    with h5py.File(mp, 'r+') as f:
+                        f[axis + '/matrix/indices'][pos] = bad
+                    v, detail = validate(ctx, mp)
+                    desc = {'scale': '%s index[%d] = %d of %d' %
+                            (axis, pos, bad, n * n)}
+                    if v == 'valid':
+                        raise Violation('C15/corruption-accepted/hdf5/'
+                                        'index-out-of-range', 'scale: %r' %
+                                        desc)
+                    ctx.count('scale_mutants')
+                    ctx.case(desc, True)
+        text = t.to_json('scale')
+        doc0 = json.loads(text)
+        for pos in (0, len(doc0['data']) // 2, len(doc0['data']) - 1):
+            for ent in ([n, 0, 1.0], [0, n, 1.0], [0, 0, 'x']):
+                doc = copy.deepcopy(doc0)
+                doc['data'][pos] = ent
+                with open(jp, 'w') as f:
+                    json.dump(doc, f)
+                v, detail = validate(ctx, jp)
+                desc = {'scale': 'json data[%d] = %r of %d' %
+                        (pos, ent, len(doc0['data']))}
+                if v == 'valid':
+                    raise Violation('C15/corruption-accepted/json/append-'
+                                    'coord', 'scale: %r' % desc)
+                ctx.count('scale_mutants')
+                ctx.case(desc, True)
+    finally:
+        for p in (hp, mp, jp):
+            if os.path.exists(p):
+                os.remove(p)
